@@ -2,6 +2,7 @@ import RgVerif.Lemmas.GlobStrat2
 import RgVerif.Lemmas.GlobSetIdx
 import RgVerif.Spec.GlobDoc
 import RgVerif.Lemmas.GlobDocSimple
+import RgVerif.Lemmas.GlobDocStar
 /-
 C12 — a glob set answers exactly like its member globs; a glob matches exactly when the documented
 syntax says so.  Only the deciding statements live here; proofs are in `Lemmas/Glob*.lean`.
@@ -138,18 +139,41 @@ example :
 
 /-! ### the documented syntax -/
 
-/-- **C12_doc** (partial, guard `simpleGlob`: literals, `?`, single `*`, `\x` escapes or a literal backslash; all
-four option flags): the glob is accepted, lies in the documented grammar, and its regex matches a path exactly
-when the documented syntax says so — `?` is one byte and `*` any run of bytes, neither crossing `/` under
-`literal_separator`; ASCII case folding under `case_insensitive`; `\x` is `x` under `backslash_escape` and a
-literal backslash otherwise.  For all globs of that grammar and all byte paths. -/
-theorem C12_doc_partial (o : Opts) (g : List Nat) (hg : simpleGlob o.be g = true) (p : Bytes) :
-    ∃ toks, parse o g = .ok toks ∧ GlobDoc.okGlob (docOpts o) g = true ∧
-      tokMatch o toks p = GlobDoc.docMatch (docOpts o) g p :=
-  doc_simple o g hg p
+/-- **Token level, all token kinds except alternates**: for every list of `Literal` (ASCII), `Any`,
+`ZeroOrMore`, `RecursivePrefix`, `RecursiveZeroOrMore`, `RecursiveSuffix` and `Class` (ASCII ranges, negated or
+not) tokens, in any order, under all option flags, the regex that `to_regex_with` prints means what the
+documentation says of the corresponding pieces: classes contain exactly their listed characters and ranges,
+`[!…]` the others, with ASCII case folding inside classes under `case_insensitive`. -/
+theorem tokens_mean_documented (o : Opts) (ts : List Tok) (hts : ∀ t ∈ ts, starTok t = true) (p : Bytes) :
+    tokensK o (ts.map Token.s) (fun r => r.isEmpty) p =
+      GlobDoc.atomsMatch (docOpts o) (ts.flatMap trAtoms) p :=
+  tokensK_eq_atomsMatch_star o ts hts p
 
-/-- the guard holds for non-trivial globs: `a*.?\*b` and, without escapes, `\a/?*` -/
-example : simpleGlob true [97, 42, 46, 63, 92, 42, 98] = true ∧ simpleGlob false [92, 97, 47, 63, 42] = true := by
+/-- the part of the documented grammar for which `C12_doc_partial` is proved: literals, `?`, single `*`, `\x`
+escapes (or a literal backslash), and `**` as a whole component in its three positions — i.e. globs
+[`**/`] S₀ (`/**/` Sᵢ)* [`/**`] with wildcard segments Sᵢ, and the glob `**` -/
+def docGuard (be : Bool) (g : List Nat) : Bool := simpleGlob be g || okStarGlob be g
+
+/-- **C12_doc** (partial, guard `docGuard`; all four option flags): the glob is accepted, lies in the documented
+grammar, and its regex matches a path exactly when the documented syntax says so — `?` is one byte and `*` any
+run of bytes, neither crossing `/` under `literal_separator`; `**/` at the start matches nothing or anything
+ending in `/`, `/**/` matches `/` or `/…/`, a final `/**` matches `/` and everything after it, `**` alone
+everything; ASCII case folding under `case_insensitive`; `\x` is `x` under `backslash_escape` and a literal
+backslash otherwise.  For all globs of that grammar and all byte paths. -/
+theorem C12_doc_partial (o : Opts) (g : List Nat) (hg : docGuard o.be g = true) (p : Bytes) :
+    ∃ toks, parse o g = .ok toks ∧ GlobDoc.okGlob (docOpts o) g = true ∧
+      tokMatch o toks p = GlobDoc.docMatch (docOpts o) g p := by
+  unfold docGuard at hg
+  rcases Bool.or_eq_true_iff.mp hg with h | h
+  · exact doc_simple o g h p
+  · exact doc_okStarGlob o g h p
+
+/-- the guard holds for non-trivial globs: `a*.?\*b`; without escapes `\a/?*`; `**/a*/**/b?/**`; `**`; `/**` -/
+example : docGuard true [97, 42, 46, 63, 92, 42, 98] = true ∧ docGuard false [92, 97, 47, 63, 42] = true ∧
+    docGuard true [42, 42, 47, 97, 42, 47, 42, 42, 47, 98, 63, 47, 42, 42] = true ∧
+    docGuard true [42, 42] = true ∧ docGuard true [47, 42, 42] = true ∧
+    -- and fails where the documentation gives no meaning: `a**b`, `**/`
+    docGuard true [97, 42, 42, 98] = false ∧ docGuard true [42, 42, 47] = false := by
   decide
 
 end RgVerif.Props.C12
